@@ -1019,8 +1019,11 @@ def replay_eq(a):
              ("X == [1]", "PASS"), ("X == [2]", "FAIL"), ("L == [1, 2]", "PASS"), ("L == [2, 1]", "FAIL"), ("L != [2, 1]", "PASS"),
              ("L[*] == 1", "FAIL"), ("some L[*] == 1", "PASS"), ("L[*] != 3", "PASS"), ("L1 == [1]", "PASS"), ("L1[*] == 1", "PASS"),
              ("M == {\"k\": 1}", "PASS") if False else ("M.k == 1", "PASS"), ("S == \"a\"", "PASS"), ("S == /^a$/", "PASS"), ("S == /b/", "FAIL"),
-             ("S != /b/", "PASS"), ("L == L", "PASS"), ("L == L1", "FAIL"), ("X == L1[0]", "PASS"), ("1 == X", "PASS") if False else ("Y == X", "PASS")]
-    return a.replay_cases(exe, data, cases)
+             ("S != /b/", "PASS"), ("L == L", "PASS"), ("L == L1", "FAIL"), ("X == L1[0]", "PASS"), ("Y == X", "PASS"),
+             # a literal on the left (through a variable): the (literal, query) case
+             ("%w == X", "PASS"), ("%w == Z", "FAIL"), ("%w != Z", "PASS"), ("%w == L1", "PASS"), ("%w == L", "FAIL"), ("some %w == L", "PASS") if False else ("%w == Y", "PASS"),
+]
+    return a.replay_cases(exe, data, cases, prefix="let w = 1\n")
 
 
 def same_v(x, y):
